@@ -449,7 +449,7 @@ ALARM_CATS = tuple((os.environ.get("CKB_VERIF_ATOM_CATS") or "call,recv,arg,dec,
 _CAT_TEXT = {"call": "no longer calls", "recv": "no longer applies (receiver)", "arg": "no longer passes (argument form)", "dec": "no longer tests",
              "must": "rejection test no longer on every successful path:", "mustcall": "no longer on every successful path: call of", "mustq": "fallible step no longer on every successful path:", "new": "no longer builds",
              "fld": "no longer initialises (field form)", "set": "no longer assigns (field form)",
-             "grd": "is no longer made / called under exactly the reviewed conditions:"}
+             "grd": "is no longer made / called under exactly the reviewed conditions:", "ord": "no longer completes the first before it calls the second:"}
 
 
 def _crate(path):
@@ -559,6 +559,11 @@ def atom_losses(ref, cur, cats, reach=None):
                     continue
                 if c in ("call", "mustq", "mustcall") and reach is not None and gained_calls and any(x in reach(path).get(g, ()) for g in gained_calls):
                     continue      # no longer called directly, but a function this one did not call before reaches it (the step moved behind a helper)
+                if c == "ord":
+                    ea, _, eb = x.partition(" < ")
+                    hc_ = set(hatoms.get("call", []))
+                    if ea not in hc_ or eb not in hc_:
+                        continue      # one of the two steps is no longer called here: that loss (or its move into a helper) is decided by its `call` atom
                 if c == "arg" and (_head(x) + " ?") in hv:
                     continue      # the same argument is still passed; its value is opaque to the form analysis now
                 if c in ("arg", "recv", "fld", "set", "dec") and via_new_call(c, x, hv, gained_calls):
